@@ -335,8 +335,65 @@ func runMultiLogImpl(tb ev.TB, p c14Prog, prop string) ev.Result {
 		if out.Deadlock || len(out.Panics) > 0 {
 			return ev.Result{Classes: []string{"not-this-property(deadlock/panic: C14)"}}
 		}
+		if prop == "C01" {
+			// after the concurrent phase the replicas exchange everything (sequentially, twice round): they
+			// must then expose the same entries, heads and - under a strict total order - values
+			for round := 0; round < 2; round++ {
+				for i := range logs {
+					for j := range logs {
+						if i != j {
+							if _, err := logs[i].Join(logs[j], -1); err != nil {
+								tb.Fatalf("exchange: L%d.Join(L%d): %v\ntrace:\n  %s", i, j, err, trace)
+							}
+						}
+					}
+				}
+			}
+			base := world.SetOf(world.Hashes(logs[0].GetEntries()))
+			baseHeads := world.SetOf(world.Hashes(logs[0].Heads()))
+			baseVals := world.Hashes(logs[0].Values())
+			strictAll := true
+			seenClock := map[string]bool{}
+			for _, e := range logs[0].GetEntries().Slice() {
+				k := fmt.Sprintf("%x/%d", e.GetClock().GetID(), e.GetClock().GetTime())
+				if seenClock[k] {
+					strictAll = false
+				}
+				seenClock[k] = true
+			}
+			for i, l := range logs[1:] {
+				if got := world.SetOf(world.Hashes(l.GetEntries())); !got.Equal(base) {
+					tb.Fatalf("after a complete exchange L0 holds %d entries and L%d holds %d\ntrace:\n  %s", len(base), i+1, len(got), trace)
+				}
+				if got := world.SetOf(world.Hashes(l.Heads())); !got.Equal(baseHeads) {
+					tb.Fatalf("after a complete exchange L0 has heads %v and L%d has %v\ntrace:\n  %s", world.Shorts(baseHeads.Sorted()), i+1, world.Shorts(got.Sorted()), trace)
+				}
+				if vals := world.Hashes(l.Values()); (strictAll || w.Order == world.OrderHash) && !world.EqualStrings(vals, baseVals) {
+					tb.Fatalf("after a complete exchange L0 and L%d linearise differently (%d vs %d values)\ntrace:\n  %s", i+1, len(baseVals), len(vals), trace)
+				}
+			}
+			if len(baseVals) != len(base) {
+				tb.Fatalf("after a complete exchange L0 holds %d entries but linearises %d\ntrace:\n  %s", len(base), len(baseVals), trace)
+			}
+			return ev.Result{NonTrivial: srcMutatedDuringJoin || crossOverlap, Classes: []string{"multi-log-engine"}}
+		}
 		for i, l := range logs {
 			ents, heads := l.VerifState()
+			if prop == "C05" {
+				// every entry the log holds is in its linearised view (nothing appended or merged got lost)
+				vals := world.SetOf(world.Hashes(l.Values()))
+				for _, e := range ents.Slice() {
+					if !vals.Has(e.GetHash().String()) {
+						tb.Fatalf("L%d holds entry %s which is missing from its linearised view\ntrace:\n  %s", i, world.Short(e.GetHash().String()), trace)
+					}
+				}
+				for h := range hist[i][0].entries {
+					if _, ok := ents.Get(h); !ok {
+						tb.Fatalf("L%d lost entry %s it held at the start\ntrace:\n  %s", i, world.Short(h), trace)
+					}
+				}
+				continue
+			}
 			if prop == "C02" {
 				if msg := headsVsEntries(ents, heads); msg != "" {
 					tb.Fatalf("final state of L%d: %s\ntrace:\n  %s", i, msg, trace)
@@ -389,6 +446,16 @@ func runMultiLogImpl(tb ev.TB, p c14Prog, prop string) ev.Result {
 func TestC02Multi(t *testing.T) {
 	ev.Get("C02")
 	ev.Check(t, "C02", genC14, runMultiLog("C02"))
+}
+
+func TestC01Multi(t *testing.T) {
+	ev.Get("C01")
+	ev.Check(t, "C01", genC14, runMultiLog("C01"))
+}
+
+func TestC05Multi(t *testing.T) {
+	ev.Get("C05")
+	ev.Check(t, "C05", genC14, runMultiLog("C05"))
 }
 
 func TestC03Multi(t *testing.T) {
